@@ -237,7 +237,23 @@ class KmipSession(threading.Thread):
                     )
 
         response_data = utils.BytearrayStream()
-        response.write(response_data, kmip_version=kmip_version)
+        try:
+            response.write(response_data, kmip_version=kmip_version)
+        except Exception as e:
+            # The request has been processed, so the client must be told
+            # something. Answer with an error instead of dropping the
+            # response (and leaving the client waiting) if the response
+            # cannot be encoded.
+            self._logger.warning("Failure encoding the response message.")
+            self._logger.exception(e)
+            response = self._engine.build_error_response(
+                response.response_header.protocol_version,
+                enums.ResultReason.GENERAL_FAILURE,
+                "An error occurred while encoding the response message. "
+                "See server logs for more information."
+            )
+            response_data = utils.BytearrayStream()
+            response.write(response_data, kmip_version=kmip_version)
 
         if len(response_data) > max_size:
             self._logger.warning(
